@@ -29,8 +29,22 @@ Definition inputs_wf (i : inputs) : Prop :=
 Definition received_self (r : receiver) : selfv :=
   match r with RcvPin => SelfUnpinned | _ => SelfAsPassed end.
 
+(* the values an explicit unmock parameter list denotes, given the caller's arguments *)
+Definition select (l : list uexpr) (args : list aval) : list rarg :=
+  map (fun x => match x with USelf => RSelf SelfAsPassed | UParam k => RVal (nth k args VImp) end) l.
+
+(* an explicit list is well-formed for n parameters: identifiers in range, nothing named twice
+   (the model's move semantics treats every class as non-Copy) *)
+Definition uexpr_in_range (n : nat) (x : uexpr) : Prop :=
+  match x with USelf => True | UParam k => (k < n)%nat end.
+Definition uexprs_ok (n : nat) (l : list uexpr) : Prop :=
+  NoDup l /\ Forall (uexpr_in_range n) l.
+
 Section Spec.
   Variable R : Type.
+
+  Definition resp_wf (n : nat) (resp : responder R) : Prop :=
+    match resp with KUnmockArm _ _ (Some l) => uexprs_ok n l | _ => True end.
 
   Definition forward_spec (sh : shape) (args : list aval) (resp : responder R) (st : store) : outcome R :=
     let i := pack (views (sh_params sh) args) in
@@ -40,9 +54,22 @@ Section Spec.
         let s := received_self (sh_recv sh) in
         ([EvEval i; EvAnswer s args], Returned (fst (f s args st)), snd (f s args st))
     | KUnmock | KDefault => ([EvEval i], Reported, st)
+    | KUnmockArm fid f ps =>
+        (* C16 in the macro's terms: the registered function gets the mock and the caller's arguments in
+           declaration order, or exactly the listed expressions; its result and writes come back unchanged.
+           The polonius template (`&mut self`, Pin) has no Unmock arm: the call is reported (finding F1) *)
+        match receiver_of (sh_recv sh) with
+        | MOwned | MRef =>
+            let rargs := match ps with
+                         | None => RSelf SelfAsPassed :: map RVal args
+                         | Some l => select l args
+                         end in
+            ([EvEval i; EvReal fid rargs], Returned (fst (f rargs st)), snd (f rargs st))
+        | MMutRef | MPin => ([EvEval i], Reported, st)
+        end
     end.
 End Spec.
-Arguments forward_spec {R}.
+Arguments forward_spec {R}. Arguments resp_wf {R}.
 
 (* a write through the k-th received argument, as the caller will observe it *)
 Fixpoint write_all (delta : N) (args : list aval) (st : store) : store :=
